@@ -55,6 +55,7 @@ from rtc.harness import Collector, pmap_chunks, stable_hash
 # ---------------------------------------------------------------------------
 KEYS_DEFAULT = ("a", "b", 1, "x.y")
 SCALARS_CORE = (None, 1, "a")
+SCALARS_BIG = (None, "a")       # 4-node trees of the thorough tier
 
 # every character the path syntax defines an escape for (separators, brackets,
 # parentheses, quotes, space, ^ $ %), in the middle, at the start and at the end
@@ -168,7 +169,10 @@ def seg_kind(nc):
     seg = getattr(nc, "path_segment", None)
     if not seg:
         return "none"
-    typ, attrs = seg[0], seg[1]
+    return _seg_kind(seg[0], seg[1])
+
+
+def _seg_kind(typ, attrs):
     name = getattr(typ, "name", str(typ))
     if name == "KEYWORD_SEARCH":
         kw = getattr(attrs, "keyword", None)
@@ -178,7 +182,71 @@ def seg_kind(nc):
     return name
 
 
-def is_virtual(nc):
+class Doc:
+    """A loaded document with its child positions and container identities."""
+
+    def __init__(self, data):
+        CommentedSet, _ = _types()
+        self.root = data
+        self.positions = []          # (container, ref, child), aliases walked once
+        self.container_ids = set()
+        seen, todo = set(), [data]
+        while todo:
+            c = todo.pop()
+            if id(c) in seen:
+                continue
+            if isinstance(c, (CommentedSet, set)):
+                seen.add(id(c))
+                for m in c:
+                    self.positions.append((c, m, m))
+            elif isinstance(c, dict):
+                seen.add(id(c))
+                for k, v in c.items():
+                    self.positions.append((c, k, v))
+                    todo.append(v)
+            elif isinstance(c, list):
+                seen.add(id(c))
+                for i, v in enumerate(c):
+                    self.positions.append((c, i, v))
+                    todo.append(v)
+        self.container_ids = seen
+
+    def holder_kind(self, c):
+        """kind of the container that holds container `c` (by identity); 'none' for the root."""
+        for pc, _, ch in self.positions:
+            if ch is c:
+                return kind(pc)
+        return "none"
+
+    def misparented_set_member(self, nc):
+        """nc.node is a member of a set S and nc.parent is the holder of S (or None when S is the root)."""
+        for c, ref, ch in self.positions:
+            if kind(c) == "set" and ch is nc.node and _same_ref(ref, nc.parentref) and c is not nc.parent:
+                if nc.parent is None:
+                    if c is self.root:
+                        return True
+                elif any(pc is nc.parent and pch is c for pc, _, pch in self.positions):
+                    return True
+        return False
+
+    def is_merge_source(self, nc):
+        m = getattr(nc.parent, "merge", None)
+        try:
+            return bool(m) and any(src is nc.node for _, src in m)
+        except Exception:   # pragma: no cover
+            return False
+
+
+def query_traits(path_text):
+    """(has_name, upstream_virtual) of a query, or None when it does not parse."""
+    from yamlpath import YAMLPath
+    from yamlpath.enums import PathSegmentTypes
+    segs = list(YAMLPath(path_text).escaped)
+    kinds = [_seg_kind(t, a) if t is not PathSegmentTypes.COLLECTOR else "COLLECTOR" for t, a in segs]
+    return ("kw:name" in kinds, any(k in ("SLICE", "COLLECTOR") for k in kinds[:-1]))
+
+
+def is_virtual(nc, doc, upstream_virtual):
     """Results that designate no single document node (statement: slices, collectors, name())."""
     CommentedSet, NodeCoords = _types()
     sk = seg_kind(nc)
@@ -190,88 +258,86 @@ def is_virtual(nc):
         return "list-of-nodecoords"
     if isinstance(nc.parent, list) and any(isinstance(e, NodeCoords) for e in nc.parent):
         return "child-of-virtual-list"
+    if upstream_virtual:
+        # what a later segment makes of a slice/collector: coordinates relative to a temporary list
+        if isinstance(nc.parent, (dict, list, CommentedSet, set)) and id(nc.parent) not in doc.container_ids:
+            return "child-of-temporary-container"
+        if isinstance(nc.node, (dict, list, CommentedSet, set)) and id(nc.node) not in doc.container_ids:
+            return "temporary-container"
     return None
 
 
-def containers_of(root):
-    """[(container, ref, child)] for every child position of the document (aliases walked once)."""
+def check_parent_ref(nc, doc):
+    """-> None or (detail, observed, container kind)"""
     CommentedSet, _ = _types()
-    out, seen, todo = [], set(), [root]
-    while todo:
-        c = todo.pop()
-        if id(c) in seen:
-            continue
-        if isinstance(c, (CommentedSet, set)):
-            seen.add(id(c))
-            for m in c:
-                out.append((c, m, m))
-        elif isinstance(c, dict):
-            seen.add(id(c))
-            for k, v in c.items():
-                out.append((c, k, v))
-                todo.append(v)
-        elif isinstance(c, list):
-            seen.add(id(c))
-            for i, v in enumerate(c):
-                out.append((c, i, v))
-                todo.append(v)
-    return out
-
-
-def check_parent_ref(nc, root):
-    """-> None or (detail, observed)"""
-    CommentedSet, _ = _types()
+    root = doc.root
     if nc.node is root and kind(root) in ("map", "seq", "set"):
         if nc.parent is not None:
-            return "root-has-parent", "parent=%r parentref=%r" % (nc.parent, nc.parentref)
+            return "root-has-parent", "parent=%s parentref=%r" % (_short(nc.parent), nc.parentref), kind(nc.parent)
         return None
+    if nc.parent is None and nc.node is root:      # scalar document: its only node is the root
+        return None
+    if doc.misparented_set_member(nc):
+        return ("set-member-parent-is-not-the-set",
+                "node=%r is a member of a set, parent=%s parentref=%r" % (nc.node, _short(nc.parent), nc.parentref), "set")
     if nc.parent is None:
-        if nc.node is root:          # scalar document: its only node is the root
-            return None
-        return "no-parent", "parent=None parentref=%r node=%r" % (nc.parentref, nc.node)
+        return "no-parent", "parent=None parentref=%r node=%s" % (nc.parentref, _short(nc.node)), "none"
     p = nc.parent
     if isinstance(p, (CommentedSet, set)):
         try:
             ok = nc.node in p
         except TypeError as e:
-            return "TypeError", repr(e)
-        return None if ok else ("not-a-member", "node=%r parent(set)=%r" % (nc.node, p))
+            return "TypeError", repr(e), "set"
+        return None if ok else ("not-a-member", "node=%s parent(set)=%s" % (_short(nc.node), _short(p)), "set")
     if not isinstance(p, (dict, list)):
-        return "parent-not-a-container", "parent=%r" % (p,)
+        return "parent-not-a-container", "parent=%r" % (p,), kind(p)
     try:
         got = p[nc.parentref]
     except (KeyError, IndexError, TypeError) as e:
-        return type(e).__name__, "parent=%r parentref=%r -> %r" % (p, nc.parentref, e)
+        if doc.is_merge_source(nc):
+            return ("merge-key-source-has-no-ref", "parent=%s parentref=%r -> %s" % (_short(p), nc.parentref, type(e).__name__),
+                    kind(p))
+        return type(e).__name__, "parent=%s parentref=%r -> %r" % (_short(p), nc.parentref, e), kind(p)
     if got is not nc.node:
-        return "other-node", "parent[parentref]=%r node=%r" % (got, nc.node)
+        return "other-node", "parent[parentref]=%s node=%s" % (_short(got), _short(nc.node)), kind(p)
     return None
 
 
-def check_ancestry(nc, root):
+def check_ancestry(nc, doc, set_misparented=False):
+    """-> None or (detail, observed, container kind)"""
     CommentedSet, _ = _types()
+    root = doc.root
     anc = nc.ancestry
-    is_root = nc.parent is None and nc.node is root
-    if is_root:
+    if nc.parent is None and nc.node is root:
         if anc:
-            return "nonempty-for-root", _anc_repr(anc)
+            return "nonempty-for-root", _anc_repr(anc), "none"
         return None
+    tparent, tref = nc.parent, nc.parentref
+    if set_misparented and anc and kind(anc[-1][0]) == "set":
+        tparent, tref = anc[-1]          # the walk has to end with (the set, the member)
+    elif set_misparented:
+        return "set-member-chain-stops-above-the-set", _anc_repr(anc), "set"
     if not anc:
-        return "empty", "ancestry=[] parent=%r parentref=%r" % (nc.parent, nc.parentref)
+        return "truncated", "ancestry=[] parent=%s parentref=%r" % (_short(nc.parent), nc.parentref), kind(nc.parent)
     if anc[0][0] is not root:
-        return "does-not-start-at-root", _anc_repr(anc)
+        return "truncated", "does not start at the root: " + _anc_repr(anc), doc.holder_kind(anc[0][0])
     for i in range(len(anc) - 1):
         a, ref = anc[i]
         if isinstance(a, (CommentedSet, set)) or not isinstance(a, (dict, list)):
-            return "broken-link", "entry %d is not an indexable container: %s" % (i, _anc_repr(anc))
+            return "broken-link", "entry %d is not an indexable container: %s" % (i, _anc_repr(anc)), kind(a)
         try:
             nxt = a[ref]
         except (KeyError, IndexError, TypeError) as e:
-            return "broken-link", "entry %d: %s -> %s" % (i, _anc_repr(anc), type(e).__name__)
+            return "broken-link", "entry %d: %s -> %s" % (i, _anc_repr(anc), type(e).__name__), kind(a)
         if nxt is not anc[i + 1][0]:
-            return "broken-link", "entry %d[ref] is not entry %d: %s" % (i, i + 1, _anc_repr(anc))
+            return "broken-link", "entry %d[ref] is not entry %d: %s" % (i, i + 1, _anc_repr(anc)), kind(a)
     la, lref = anc[-1]
-    if la is not nc.parent or not _same_ref(lref, nc.parentref):
-        return "last-entry-not-parent", "%s vs parent=%r parentref=%r" % (_anc_repr(anc), nc.parent, nc.parentref)
+    if la is nc.parent and doc.is_merge_source(nc):
+        if lref is nc.node or _same_ref(lref, nc.parentref):
+            return None      # no key/index exists for a merged-in map; reported once, under parent-ref
+    if la is not tparent or not _same_ref(lref, tref):
+        return ("last-entry-not-parent", "%s vs parent=%s parentref=%r" % (_anc_repr(anc), _short(nc.parent), nc.parentref),
+                kind(nc.parent))
     return None
 
 
@@ -294,22 +360,19 @@ def _short(x, n=60):
 class Requery:
     """Per-document memo of get_nodes(text, mustexist=True): [(node, parent, parentref) | 'virtual'] or exception."""
 
-    def __init__(self, data, log):
-        self.data, self.log, self.memo = data, log, {}
+    def __init__(self, doc, log):
+        self.doc, self.log, self.memo = doc, log, {}
 
     def __call__(self, text):
         if text in self.memo:
             return self.memo[text]
         from yamlpath import Processor
-        from yamlpath.exceptions import YAMLPathException
         try:
             res = []
-            for r in Processor(self.log, self.data).get_nodes(text, mustexist=True):
-                res.append(("virtual",) if is_virtual(r) else (r.node, r.parent, r.parentref))
+            for r in Processor(self.log, self.doc.root).get_nodes(text, mustexist=True):
+                res.append(("virtual",) if is_virtual(r, self.doc, True) else (r.node, r.parent, r.parentref))
             out = ("ok", res)
-        except YAMLPathException as e:
-            out = ("exc", type(e).__name__, str(e)[:120])
-        except Exception as e:   # a crash on the library's own reported path
+        except Exception as e:   # including a crash on the library's own reported path
             out = ("exc", type(e).__name__, str(e)[:120])
         self.memo[text] = out
         return out
@@ -329,13 +392,29 @@ def renderings(nc):
     return out
 
 
+_ANCHOR_MEMO = {}
+
+
 def names_anchor(text):
-    from yamlpath import YAMLPath
-    from yamlpath.enums import PathSegmentTypes
-    try:
-        return any(t is PathSegmentTypes.ANCHOR for t, _ in YAMLPath(text).escaped)
-    except Exception:
+    if text not in _ANCHOR_MEMO:
+        from yamlpath import YAMLPath
+        from yamlpath.enums import PathSegmentTypes
+        if len(_ANCHOR_MEMO) > 50000:
+            _ANCHOR_MEMO.clear()
+        try:
+            _ANCHOR_MEMO[text] = any(t is PathSegmentTypes.ANCHOR for t, _ in YAMLPath(text).escaped)
+        except Exception:
+            _ANCHOR_MEMO[text] = False
+    return _ANCHOR_MEMO[text]
+
+
+def first_key_begins_with_slash(nc, doc):
+    """The reported path is built in dot notation but its text starts with '/': the first character of a
+    top-level key, left unescaped, which makes the whole text read as forward-slash notation."""
+    orig = getattr(nc.path, "original", "")
+    if not orig.startswith("/"):
         return False
+    return kind(doc.root) == "map" and any(isinstance(k, str) and k.startswith("/") for k in doc.root)
 
 
 def check_requery(nc, requery, position_trusted):
@@ -360,21 +439,27 @@ def check_requery(nc, requery, position_trusted):
             return (not position_trusted) or (r[1] is nc.parent and _same_ref(r[2], nc.parentref))
         hits = [r for r in res if same(r)]
         if not hits:
-            fails.append(("requery-miss", "other-node", "%s %r -> %s, wanted %s" % (
+            fails.append(("requery-miss", "other-node" + _depth_note(nc, text), "%s %r -> %s, wanted %s" % (
                 label, text, _res_repr(res), _res_repr([(nc.node, nc.parent, nc.parentref)]))))
             continue
         if names_anchor(text):
-            # once per place the anchored node occurs: all results are that node, no place twice
-            others = [r for r in res if r == ("virtual",) or r[0] is not nc.node]
-            places = [(id(r[1]), repr(r[2])) for r in res if r != ("virtual",)]
-            if others:
+            # once per place the anchored node occurs: every result is that node (a shared container
+            # reached through two aliases has one (parent, ref) position, so places are not counted)
+            if any(r == ("virtual",) or r[0] is not nc.node for r in res):
                 fails.append(("requery-extra", "anchor-path-other-node", "%s %r -> %s" % (label, text, _res_repr(res))))
-            elif len(set(places)) != len(places):
-                fails.append(("requery-extra", "anchor-path-place-twice", "%s %r -> %s" % (label, text, _res_repr(res))))
         elif len(res) != 1:
             detail = "same-node-repeated" if len(hits) == len(res) else "other-nodes-too"
             fails.append(("requery-extra", detail, "%s %r -> %s" % (label, text, _res_repr(res))))
     return fails
+
+
+def _depth_note(nc, text):
+    """reported path and ancestry disagree about how deep the node sits (e.g. a segment that was not popped)"""
+    from yamlpath import YAMLPath
+    try:
+        return "" if len(YAMLPath(text).escaped) == len(nc.ancestry) else "(path-depth-differs-from-ancestry-depth)"
+    except Exception:
+        return ""
 
 
 def _res_repr(res):
@@ -382,55 +467,37 @@ def _res_repr(res):
                            for r in res) + "]"
 
 
-def true_container_kind(nc, positions):
-    """kind of the container the node really lives in (by identity), for the witness key."""
-    claimed = kind(nc.parent)
-    if nc.node is None or isinstance(nc.node, (bool, int, float, str)) and not hasattr(nc.node, "anchor"):
-        # interned scalars: identity says nothing; trust a consistent claim
-        homes = {kind(c) for c, ref, ch in positions if ch is nc.node and (c is nc.parent)}
-        if homes:
-            return claimed
-        homes = {kind(c) for c, ref, ch in positions if ch is nc.node and _same_ref(ref, nc.parentref)}
-    else:
-        homes = {kind(c) for c, ref, ch in positions if ch is nc.node}
-    if not homes or claimed in homes:
-        return claimed
-    return "claims-%s-lives-in-%s" % (claimed, "+".join(sorted(homes)))
-
-
 def snapshot_coords(nc):
     return (id(nc.node), id(nc.parent), repr(nc.parentref), None if nc.path is None else str(nc.path),
             tuple((id(a), repr(r)) for a, r in nc.ancestry))
 
 
-def check_case(data, path_text, log=None, requery=None, positions=None):
+def check_case(doc, path_text, log=None, requery=None):
     """Run one query and check every real result.
 
     Returns (failures, info): failures = [(key, what, observed, expected)],
     info = dict(n=results, virtual=count, exc=exception type or None, kinds=[...]).
     """
-    from yamlpath import Processor, YAMLPath
-    from yamlpath.enums import PathSegmentTypes
+    from yamlpath import Processor
     from yamlpath.exceptions import YAMLPathException
     log = log or gen.quiet_logger()
-    requery = requery or Requery(data, log)
-    positions = positions if positions is not None else containers_of(data)
+    requery = requery or Requery(doc, log)
     failures, seen_keys = [], set()
     info = {"n": 0, "virtual": 0, "exc": None, "kinds": []}
-
-    via_slice = False
     try:
-        segs = list(YAMLPath(path_text).escaped)
-        for typ, attrs in segs[:-1]:
-            if typ is PathSegmentTypes.COLLECTOR or (typ is PathSegmentTypes.INDEX and ":" in str(attrs)):
-                via_slice = True
+        has_name, upstream_virtual = query_traits(path_text)
     except Exception as e:                      # unparsable query: C14/C15's business
         info["exc"] = "parse:" + type(e).__name__
         return failures, info
 
-    def fail(nc, clause, detail, observed, expected):
-        key = "C02/%s%s/%s/%s%s" % (clause, ":" + detail if detail else "", seg_kind(nc),
-                                    true_container_kind(nc, positions), "/via-slice" if via_slice else "")
+    def fail(nc, clause, detail, observed, expected, container):
+        if clause == "requery-miss" and first_key_begins_with_slash(nc, doc):
+            key = "C02/requery-miss:first-key-begins-with-slash/*/*"
+        elif upstream_virtual:
+            # one root cause: a later segment took a slice/collector result for a document list
+            key = "C02/%s/after-virtual" % clause
+        else:
+            key = "C02/%s%s/%s/%s" % (clause, ":" + detail if detail else "", seg_kind(nc), container)
         if key in seen_keys:
             return
         seen_keys.add(key)
@@ -438,23 +505,27 @@ def check_case(data, path_text, log=None, requery=None, positions=None):
 
     handed_out = []
     try:
-        for nc in Processor(log, data).get_nodes(path_text, mustexist=True):
+        for nc in Processor(log, doc.root).get_nodes(path_text, mustexist=True):
             info["n"] += 1
-            v = is_virtual(nc)
+            v = "downstream-of-name()" if has_name else is_virtual(nc, doc, upstream_virtual)
             if v:
                 info["virtual"] += 1
                 info["kinds"].append("virtual:" + v)
                 continue
             info["kinds"].append(seg_kind(nc) + ">" + kind(nc.parent))
             handed_out.append((nc, snapshot_coords(nc)))
-            pr = check_parent_ref(nc, data)
+            pr = check_parent_ref(nc, doc)
             if pr:
-                fail(nc, "parent-ref", pr[0], pr[1], "parent[parentref] is node (set: node in parent); root: parent None")
-            an = check_ancestry(nc, data)
+                fail(nc, "parent-ref", pr[0], pr[1], "parent[parentref] is node (set: node in parent); root: parent None", pr[2])
+            setmis = bool(pr) and pr[0] == "set-member-parent-is-not-the-set"
+            an = check_ancestry(nc, doc, setmis)
             if an:
-                fail(nc, "ancestry", an[0], an[1], "chain root=a0..an=parent, a_i[ref_i] is a_i+1, last entry == (parent, parentref)")
+                fail(nc, "ancestry", an[0], an[1],
+                     "chain root=a0..an=parent, a_i[ref_i] is a_i+1, last entry == (parent, parentref)", an[2])
+            home = "set" if setmis else kind(nc.parent)
             for clause, detail, obs in check_requery(nc, requery, position_trusted=pr is None):
-                fail(nc, clause, detail, obs, "exactly this node at this position, once (once per alias place for &anchor paths)")
+                fail(nc, clause, detail, obs,
+                     "exactly this node at this position, once (every result that node for &anchor paths)", home)
     except YAMLPathException as e:
         info["exc"] = type(e).__name__
     except Exception as e:                      # C15's business, not a coordinate failure
@@ -466,7 +537,7 @@ def check_case(data, path_text, log=None, requery=None, positions=None):
             fail(nc, "mutated-after-yield", field,
                  "at yield: path=%r ancestry-len=%d; after the query finished: path=%r ancestry-len=%d" % (
                      snap[3], len(snap[4]), now[3], len(now[4])),
-                 "a result's coordinates stay what they were when it was handed out")
+                 "a result's coordinates stay what they were when it was handed out", kind(nc.parent))
     return failures, info
 
 
@@ -477,6 +548,27 @@ WHAT = {
     "requery-extra": "evaluating the reported path returns more than the node",
     "mutated-after-yield": "coordinates of an already returned result were changed by the rest of the query",
 }
+
+
+def check_minimal(doc, segs, sep, log=None, requery=None, memo=None):
+    """check_case on render(segs, sep); a failure is attributed to the shortest prefix of the
+    query whose own results already fail (a later segment only inherits broken coordinates).
+
+    Returns (failures, info of the full query, culprit segs, culprit text)."""
+    memo = {} if memo is None else memo
+
+    def run(ss):
+        text = pathgen.render(ss, sep)
+        if text not in memo:
+            memo[text] = check_case(doc, text, log, requery)
+        return text, memo[text]
+    text, (failures, info) = run(segs)
+    if failures and len(segs) > 1:
+        for k in range(1, len(segs)):
+            ptext, (pf, _) = run(segs[:k])
+            if pf:
+                return pf, info, segs[:k], ptext
+    return failures, info, segs, text
 
 
 # ---------------------------------------------------------------------------
@@ -536,6 +628,13 @@ def _paths_for(item):
         raise ValueError(mode)
 
 
+def _inp(text, segs, sep, ptext, key=None):
+    d = {"yaml": text, "path": ptext, "segs": [list(s) for s in segs], "sep": sep}
+    if key:
+        d["key"] = key
+    return d
+
+
 def _work(chunk):
     col = Collector()
     log = gen.quiet_logger()
@@ -546,18 +645,20 @@ def _work(chunk):
         if data is None:
             col.case()
             continue
-        positions = containers_of(data)
-        requery = Requery(data, log)
+        doc = Doc(data)
+        requery = Requery(doc, log)
+        memo = {}
         shape = doc_shape(data)
         before = repr(gen.plain(data))
+        reported = set()
         for segs in _paths_for(item):
             pshape = path_shape(segs)
             for sep in (".", "/"):
-                ptext = pathgen.render(segs, sep)
-                failures, info = check_case(data, ptext, log, requery, positions)
-                if failures:
+                failures, info, csegs, ctext = check_minimal(doc, segs, sep, log, requery, memo)
+                inherited = len(csegs) < len(segs)
+                if failures and (ctext, sep) not in reported:
                     # confirm on a fresh load: only that counts (and is what replay() does)
-                    fresh, _ = check_case(gen.load(text), ptext)
+                    fresh, _ = check_case(Doc(gen.load(text)), ctext)
                     fresh_keys = {f[0] for f in fresh}
                     for f in failures:
                         if f[0] not in fresh_keys:
@@ -567,19 +668,29 @@ def _work(chunk):
                 sig = None
                 if nontrivial:
                     sig = stable_hash([shape, pshape, sep, info["n"], info["virtual"], info["exc"],
-                                       sorted(set(info["kinds"])), sorted(f[0] for f in failures)])
-                col.case(sig, {"yaml": text, "path": ptext, "results": info["n"], "virtual": info["virtual"],
-                               "exception": info["exc"]} if nontrivial and info["n"] - info["virtual"] > 0 else None)
+                                       sorted(set(info["kinds"])), sorted(f[0] for f in failures), inherited])
+                col.case(sig, {"yaml": text, "path": pathgen.render(segs, sep), "results": info["n"],
+                               "virtual": info["virtual"], "exception": info["exc"]}
+                         if nontrivial and info["n"] - info["virtual"] > 0 else None)
                 if info["virtual"]:
                     col.out_of_scope("virtual-result-skipped")
+                if inherited and failures:
+                    col.out_of_scope("downstream-of-a-failing-prefix(reported-at-the-prefix)")
+                if (ctext, sep) in reported:
+                    continue
+                reported.add((ctext, sep))
                 for key, what, observed, expected in failures:
                     if oos:
                         col.out_of_scope("key-outside-escapable-set:" + key)
                     else:
-                        col.witness(key, what, {"yaml": text, "path": ptext, "key": key}, observed, expected)
+                        col.witness(key, what, _inp(text, csegs, sep, ctext, key), observed, expected)
         if repr(gen.plain(data)) != before:
             col.out_of_scope("document-changed-by-queries(C09)")
     return col.result(internal=True)
+
+
+QUICK_SMALL_PATHS, QUICK_BIG_DOCS, QUICK_BIG_PATHS = 500, 400, 120
+THOROUGH_N5_DOCS, THOROUGH_RANDOM_DOCS, QUICK_RANDOM_DOCS = 4000, 12000, 1200
 
 
 def _items(tier, seed):
@@ -601,16 +712,23 @@ def _items(tier, seed):
     core_small = gen.trees(3, 2, keys=KEYS_DEFAULT, scalars=SCALARS_CORE)
     core_big = gen.trees(4, 3, keys=KEYS_DEFAULT, scalars=SCALARS_CORE)
     small_set = {gen.to_yaml(t) for t in core_small}
-    for t in core_small:
-        add(t, "all2", alphabet=KEYS_DEFAULT)
+    tiny_set = {gen.to_yaml(t) for t in gen.trees(2, 1, keys=KEYS_DEFAULT, scalars=SCALARS_CORE)}
     big_rest = [t for t in core_big if gen.to_yaml(t) not in small_set]
     if quick:
-        for t in rng.sample(big_rest, 600):
-            add(t, "sample", n=120, alphabet=KEYS_DEFAULT)
+        for t in core_small:
+            if gen.to_yaml(t) in tiny_set:
+                add(t, "all2", alphabet=KEYS_DEFAULT)
+            else:
+                add(t, "sample", n=QUICK_SMALL_PATHS, alphabet=KEYS_DEFAULT)
+        for t in rng.sample(big_rest, QUICK_BIG_DOCS):
+            add(t, "sample", n=QUICK_BIG_PATHS, alphabet=KEYS_DEFAULT)
     else:
-        for t in big_rest:
+        for t in core_small:
             add(t, "all2", alphabet=KEYS_DEFAULT)
-        for t in rng.sample(gen.trees(5, 4, keys=("a", "b", "x.y"), scalars=(None, 1, "a")), 6000):
+        for t in gen.trees(4, 3, keys=KEYS_DEFAULT, scalars=SCALARS_BIG):
+            if gen.size(t) == 4:
+                add(t, "all2", alphabet=KEYS_DEFAULT)
+        for t in rng.sample(gen.trees(5, 4, keys=("a", "b", "x.y"), scalars=(None, 1, "a")), THOROUGH_N5_DOCS):
             add(t, "sample", n=300, alphabet=KEYS_DEFAULT)
     # B. keys from the escapable punctuation set
     punct = gen.trees(3, 2, keys=PUNCT_KEYS, scalars=(1,), sets=False)
@@ -630,7 +748,7 @@ def _items(tier, seed):
         add(t, "sample", n=60)
     # E. seeded random trees
     pool = KEYS_DEFAULT + ("c", 2) + PUNCT_KEYS
-    for _ in range(1500 if quick else 20000):
+    for _ in range(QUICK_RANDOM_DOCS if quick else THOROUGH_RANDOM_DOCS):
         ks = tuple(rng.sample(pool, 6))
         t = gen.random_tree(rng, max_nodes=14, max_depth=5, keys=ks, scalars=gen.SCALARS_FULL)
         if not isinstance(t, (dict, list)):
@@ -642,16 +760,17 @@ def _items(tier, seed):
 def bounds(tier):
     quick = tier == "quick"
     return {
-        "core_docs": "trees(N<=3,D<=2) x all 1+2-segment paths, both notations"
-                     + ("; 600 sampled trees(N<=4,D<=3) x 120 sampled paths" if quick else
-                        "; all trees(N<=4,D<=3) x all 1+2-segment paths; 6000 sampled trees(N<=5,D<=4) x 300 sampled 2-3-segment paths"),
+        "core_docs": ("trees(N<=2,D<=1) x all 1+2-segment paths; trees(N<=3,D<=2) x all 1-segment + %d sampled 2-3-segment paths; "
+                      "%d sampled trees(N<=4,D<=3) x %d sampled paths" % (QUICK_SMALL_PATHS, QUICK_BIG_DOCS, QUICK_BIG_PATHS)) if quick else
+                     ("all trees(N<=3,D<=2) and all 4-node trees(D<=3, scalars null/a) x all 1+2-segment paths; %d sampled trees(N<=5,D<=4, keys a b x.y) x 300 sampled "
+                      "2-3-segment paths" % THOROUGH_N5_DOCS),
         "core_keys": list(map(str, KEYS_DEFAULT)), "core_scalars": [repr(s) for s in SCALARS_CORE],
         "punctuation_keys": list(PUNCT_KEYS),
         "punctuation_docs": "trees(N<=3,D<=2, keys=PUNCT, no sets) + 2-level/AoH/seq-in-map/set shapes per key; "
                             + ("150 sampled paths each" if quick else "all 1+2-segment paths each"),
         "anchor_docs": list(ANCHOR_DOCS),
         "out_of_scope_keys": list(OOS_KEYS),
-        "random_docs": (1500 if quick else 20000), "random_doc_nodes": 14, "random_paths_per_doc": 60 if quick else 150,
+        "random_docs": (QUICK_RANDOM_DOCS if quick else THOROUGH_RANDOM_DOCS), "random_doc_nodes": 14, "random_paths_per_doc": 60 if quick else 150,
         "path_vocabulary": "KEY over the document's keys + zz; INDEX -1..2; SLICE 0:1 0:2 1:1; SEARCH (=,<,=~) x inverted x "
                            "attr(., 3 keys) x terms(a,1); * ; ** ; a* ; keywords " + ", ".join(
                                "[%s%s(%s)]" % ("!" if i else "", n, p) for i, n, p in KEYWORDS) + "; ANCHOR on the anchor docs",
@@ -676,17 +795,26 @@ def run(tier="quick", seed=0, jobs=None):
 
 
 def replay(inp):
-    """Re-run one (document, path) on the current tree; the witness dict if it still fails, else None."""
+    """Re-run one (document, path) on the current tree; the witness dict if it still fails, else None.
+
+    inp: {"yaml": text, "path": text} (+ "segs"/"sep" as produced by run(): the query is then re-rendered
+    from the segments and a failure is attributed to its shortest failing prefix, exactly as in run())."""
     data = gen.load(inp["yaml"])
     if data is None:
         return None
-    failures, _ = check_case(data, inp["path"])
+    doc = Doc(data)
+    if inp.get("segs"):
+        segs = [tuple(s) for s in inp["segs"]]
+        failures, _, csegs, ctext = check_minimal(doc, segs, inp.get("sep", "."))
+    else:
+        ctext = inp["path"]
+        failures, _ = check_case(doc, ctext)
     if not failures:
         return None
     want = inp.get("key")
     pick = next((f for f in failures if f[0] == want), failures[0])
     return {"key": pick[0], "what": pick[1], "inputs": [inp], "observed": pick[2], "expected": pick[3], "count": 1,
-            "all_keys": [f[0] for f in failures]}
+            "culprit_path": ctext, "all_keys": [f[0] for f in failures]}
 
 
 if __name__ == "__main__":
